@@ -297,6 +297,20 @@ CLAIMED = {
         note="sanitize_css is not modelled (streams with a style attribute are outside the model's domain).",
         technique="Coq proof (finite table fact lifted to all streams by induction, composition with C08/C09) + "
                   "differential correspondence + mutation-XSS re-parse run"),
+    "C03": dict(
+        category="proof",
+        text="Theorems: the tokenizer loop terminates from every configuration (C02, over the regenerated model); "
+             "the EOF hand-over graph, EXTRACTED from html5parser.py by a conservative inter-procedural walk on "
+             "every run, is acyclic with chains of at most 7 phases, so the EOF loop terminates and its anti-cycle "
+             "assertion is dead; every phase that can be current has a processEOF; generateImpliedEndTags pops "
+             "exactly the maximal implied run and never the root. PARTIAL: absence of exceptions in the phase "
+             "handlers and the skeleton clause are decided by parsing tag soup, every dispatch-table tag in every "
+             "table/select/foreign context, nesting to depth 3 000 (thorough 100 000), random bytes, with both "
+             "builders, namespacing on/off, document and fragment mode with 30 containers, scripting on/off.",
+        design_ref="DESIGN.md 3 C03",
+        note="two crashes repaired in /repo (recursion, table EOF assertion).",
+        technique="Coq proof (rank function over an extracted graph, list induction) + translator + "
+                  "totality/skeleton run on the real parser"),
 }
 
 PENDING_REASON = "not yet built in this round (planned: Coq model + theorems per DESIGN.md section 3); no check is registered, so nothing is claimed"
